@@ -45,7 +45,7 @@ def run_search(tier, seed):
 
 
 def search_cached(tier, seed):
-    key = ["search", tier, seed, fw.tree_hash(), _files_hash(SPEC_FILES(['Teal', 'Cfg', 'PathReach', 'SearchCheck'])), _files_hash(HARNESS_FILES()), SIZES[tier]]
+    key = ["search", tier, seed, fw.tree_hash(), _files_hash(SPEC_FILES(['Teal', 'Cfg', 'PathReach', 'SearchCheck'])), _files_hash(HARNESS_FILES(['checks/search.py'])), SIZES[tier]]
 
     def build():
         w, tot = run_search(tier, seed)
